@@ -46,12 +46,13 @@ Definition gate_names19 : list string :=
   ["rxx"; "ryy"; "rzz"; "crx"; "cry"; "crz"; "cp"; "cs"; "csdg"; "csx"; "csxdg"; "cx"; "cy"; "cz"; "ch"; "ecr";
    "swap"; "iswap"; "dcx"].
 Lemma angles_consistent : forall n, In n ("move" :: gate_names19) ->
-  exists b a, qpd_model (std_gate n) = Ok (b, a) /\ angles_ok a.
+  exists b a, qpd_model (std_gate n) = Ok (b, a) /\ angles_ok a /\ symbols_bound (b, a) = true.
 Proof.
   intros n HIn. simpl in HIn.
   repeat (destruct HIn as [<-|HIn];
-          [eexists; eexists; split; [reflexivity|]; intros th; split; intros r E; cbn in E; try discriminate;
-           inversion E; subst; cbn; lra|]).
+          [eexists; eexists; split; [reflexivity|]; split;
+           [intros th; split; intros r E; cbn in E; try discriminate; inversion E; subst; cbn; lra
+           |vm_compute; reflexivity]|]).
   contradiction.
 Qed.
 
@@ -109,16 +110,16 @@ Qed.
 
 (* ---------- the exactness theorem over the dispatcher ---------- *)
 Theorem dispatch_exact : forall n, In n gate_names19 -> forall th : R,
-  exists b a, qpd_model (std_gate n) = Ok (b, a) /\ angles_ok a /\
+  exists b a, qpd_model (std_gate n) = Ok (b, a) /\ angles_ok a /\ symbols_bound (b, a) = true /\
               channel (RC (thp_of n th)) nou (resolve b) = gate_ptm n th.
 Proof.
   intros n HIn th.
-  destruct (angles_consistent n (or_intror HIn)) as (b & a & Hq & Ha).
-  exists b, a. split; [exact Hq|]. split; [exact Ha|].
+  destruct (angles_consistent n (or_intror HIn)) as (b & a & Hq & Ha & Hs).
+  exists b, a. split; [exact Hq|]. split; [exact Ha|]. split; [exact Hs|].
   assert (Hb : resolve b = basis_terms n).
   { unfold basis_terms. change (mkG n true 2 true true true) with (std_gate n).
     rewrite <- dispatch_eq_basis_of, Hq. reflexivity. }
-  rewrite Hb. unfold gate_ptm. clear Hq Ha Hb b a.
+  rewrite Hb. unfold gate_ptm. clear Hq Ha Hs Hb b a.
   simpl in HIn.
   destruct HIn as [<-|[<-|[<-|[<-|[<-|[<-|[<-|HIn]]]]]]].
   1-7: match goal with |- channel _ _ (basis_terms ?n) = _ =>
@@ -146,11 +147,64 @@ Proof.
       end.
 Qed.
 
-(* Move through the dispatcher *)
-Theorem dispatch_move_exact : forall th : R,
+(* Move through the dispatcher (no quantity of the coefficient structure is used: stated at RC 0) *)
+Theorem dispatch_move_exact :
   exists b, qpd_model (mkG "move" false 2 true false false) = Ok (b, no_angles) /\
-            channel (RC th) nou (resolve b) = ptm_move (RC th).
-Proof. intros th. eexists. split; [reflexivity|]. exact (move_exact th). Qed.
+            channel (RC 0) nou (resolve b) = ptm_move (RC 0).
+Proof. eexists. split; [reflexivity|]. exact (move_exact 0). Qed.
+
+(* the unregistered branch: every two-qubit gate with a matrix gets the KAK basis; refusals carry over *)
+Lemma dispatch_kak : forall g, ~ In (g_name g) registered ->
+  g_is_gate g = true -> g_nq g = 2%nat -> g_matrix_ok g = true -> qpd_model g = Ok (kak_basis, no_angles).
+Proof.
+  intros [n isg nq pok mok hasp] HN Hg Hq Hm. cbn in HN, Hg, Hq, Hm. subst. unfold qpd_model. cbn [g_name g_is_gate g_nq g_matrix_ok].
+  let r := eval vm_compute in registry in change registry with r.
+  unfold dict_get, find. cbn [fst snd].
+  repeat match goal with
+  | |- context [String.eqb ?s n] =>
+      rewrite (proj2 (String.eqb_neq s n))
+        by (intros E; apply HN; rewrite <- E; unfold registered; simpl; repeat (first [left; reflexivity | right]))
+  end.
+  reflexivity.
+Qed.
+Lemma dispatch_refused : forall g, basis_of g = Refused <-> qpd_model g = Refused.
+Proof.
+  intros g. rewrite <- dispatch_eq_basis_of. destruct (qpd_model g) as [[b a]| |]; simpl; split; intros E; congruence.
+Qed.
+
+(* the 19 gate names + move are exactly the registered names *)
+Lemma names_are_registered : incl gate_names19 registered /\ incl registered ("move" :: gate_names19).
+Proof.
+  split; intros x Hx; simpl in Hx;
+    repeat (destruct Hx as [<-|Hx]; [unfold registered, gate_names19; simpl; repeat (first [left; reflexivity | right])|]);
+    contradiction.
+Qed.
+
+(* a concrete KAK instance over Q[r]: Weyl point (cos,sin) = (3/5,4/5),(5/13,12/13),(8/17,15/17), locals = PTMs of H,S,SX,T *)
+Definition Cq_kak : Coef (Q * Q) :=
+  mkCoef (cring QR) (cofQ QR)
+    (fun n => match n with
+              | 2 => cvar QR 2
+              | 3 => cofQ QR (3 # 5) | 4 => cofQ QR (4 # 5) | 5 => cofQ QR (5 # 13) | 6 => cofQ QR (12 # 13)
+              | 7 => cofQ QR (8 # 17) | 8 => cofQ QR (15 # 17)
+              | _ => r0 QR
+              end).
+Definition uenv_kak (k : nat) : list (list (Q * Q)) :=
+  ptm_op Cq_kak nou (nth k [OH; OS; OSX; OT] OX).
+Definition kak_lhs := channel Cq_kak uenv_kak (resolve kak_basis).
+Definition kak_rhs :=
+  mmul Cq_kak (kron Cq_kak (uenv_kak 3%nat) (uenv_kak 1%nat))
+    (mmul Cq_kak (ptm2 Cq_kak [(c1 Cq_kak, Uweyl Cq_kak)]) (kron Cq_kak (uenv_kak 2%nat) (uenv_kak 0%nat))).
+Lemma kak_instance :
+  meqb Cq_kak kak_lhs kak_rhs = true /\ meqb Cq_kak kak_lhs (ident Cq_kak 16%nat) = false /\
+  nth 6%nat (nth 9%nat kak_lhs []) (r0 QR) = (0%Q, (833 # 4225)%Q).   (* (833/4225)·r *)
+Proof. vm_compute. repeat split; reflexivity. Qed.
+(* the hypothesis of kak_exact is satisfiable by PTMs of actual gates over R *)
+Definition uenv_gates (k : nat) : list (list R) :=
+  ptm_op (RC 0) (fun _ => ident RRing 4) (nth k [OH; OS; OSX; OT] OX).
+Lemma kak_hyp_satisfiable : forall k, wf4 (uenv_gates k).
+Proof. intros k. apply ptm_op_wf4. intros j. apply ident4_wf. Qed.
+
 
 (* non-vacuity / |θ| > 2π: the CRX target at θ and θ + 2π differ (sign of the rotation block), so a basis
    computed from θ mod 2π cannot satisfy dispatch_exact *)
